@@ -9,35 +9,57 @@ open List TapkeeVerif.CoverTree
 variable {K : Type} [LinearOrder K] [AddCommGroup K] [IsOrderedAddMonoid K]
 variable {δ : Nat → Nat → K} {getScale : K → Int} {distOfScale : Int → K}
 
+/-- the loop raising the top scale ends with a scale that covers `maxDist` -/
+theorem raiseTop_covers (maxDist : K) : ∀ (cnt : Nat) {s top : Int}, raiseTop distOfScale maxDist cnt s = some top →
+    maxDist ≤ distOfScale top
+  | 0, s, top, h => by
+    unfold raiseTop at h
+    by_cases hlt : distOfScale s < maxDist
+    · simp [hlt] at h
+    · simp only [hlt, if_false, Option.some.injEq] at h
+      subst h
+      exact not_lt.1 hlt
+  | cnt + 1, s, top, h => by
+    unfold raiseTop at h
+    by_cases hlt : distOfScale s < maxDist
+    · simp only [hlt, if_true] at h
+      exact raiseTop_covers maxDist cnt h
+    · simp only [hlt, if_false, Option.some.injEq] at h
+      subst h
+      exact not_lt.1 hlt
+
 /-- the tree returned by `batch_create` satisfies `wfNode`, its leaves are the given points (each as often as given),
     and the leaf scale is at least 100 -/
 theorem batchCreate_good (hself : ∀ x, δ x x = 0) (hnn : ∀ x y, 0 ≤ δ x y) (hpos : ∀ s, 0 ≤ distOfScale s)
     {fuel : Nat} {points : List Nat} {t : CNode K} {ls : Nat}
-    (htop : topCovered δ getScale distOfScale points = true)
     (h : batchCreate δ getScale distOfScale fuel points = some (t, ls)) :
     wfNode δ t = true ∧ t.leaves.Perm points ∧ 100 ≤ ls := by
   cases points with
   | nil => simp [batchCreate] at h
   | cons p0 rest =>
     simp only [batchCreate] at h
-    simp only [topCovered] at htop
     have hch : ∀ e ∈ rest.map (fun x => (⟨[δ p0 x], x⟩ : DS K)), Chained δ (p0 :: []) e := by
       intro e he
       obtain ⟨x, _, rfl⟩ := mem_map.1 he
       simp [Chained]
     have hpts : pts (rest.map fun x => (⟨[δ p0 x], x⟩ : DS K)) = rest := by
       simp [pts, Function.comp_def]
-    generalize rest.map (fun x => (⟨[δ p0 x], x⟩ : DS K)) = ps at h htop hch hpts
+    generalize rest.map (fun x => (⟨[δ p0 x], x⟩ : DS K)) = ps at h hch hpts
     cases hmax : maxSet ps with
     | none => simp [hmax] at h
     | some md =>
-      simp only [hmax] at h htop
-      cases hr : batchInsert δ getScale distOfScale fuel p0 (getScale md) (getScale md) ps [] [] 100 with
+      simp only [hmax] at h
+      cases hrt : raiseTop distOfScale md fuel (getScale md) with
+      | none => simp [hrt] at h
+      | some top =>
+      simp only [hrt] at h
+      have hcov : md ≤ distOfScale top := raiseTop_covers _ _ hrt
+      cases hr : batchInsert δ getScale distOfScale fuel p0 top top ps [] [] 100 with
       | none => simp [hr] at h
       | some r =>
         simp only [hr, Option.some.injEq, Prod.mk.injEq] at h
         obtain ⟨ht, hls⟩ := h
-        have hok := batchInsert_ok hself hnn hpos fuel [] p0 (getScale md) (getScale md) ps [] [] 100 r hch
+        have hok := batchInsert_ok hself hnn hpos fuel [] p0 top top ps [] [] 100 r hch
           (by simp) (by simp) hr
         obtain ⟨new, hc, hnew, hlv, hperm⟩ := hok.cons
         obtain ⟨_, hle, _⟩ := maxSet_chained hch hmax
@@ -49,11 +71,7 @@ theorem batchCreate_good (hself : ∀ x, δ x x = 0) (hnn : ∀ x y, 0 ≤ δ x 
           have hmem : e.p ∈ pts ps := hperm.mem_iff.1 (mem_append_right _ (mem_map_of_mem he))
           obtain ⟨e', he', hp'⟩ := mem_map.1 hmem
           have hd : δ p0 e.p ≤ md := by rw [← hp']; exact hle e' he'
-          simp only [Bool.or_eq_true, decide_eq_true_eq] at htop
-          rcases htop with h0 | hcov
-          · rw [h0] at hd
-            exact absurd (lt_of_le_of_lt (hpos _) hleft) (not_lt_of_ge hd)
-          · exact absurd (lt_of_le_of_lt (le_trans hd hcov) hleft) (lt_irrefl _)
+          exact absurd (lt_of_le_of_lt (le_trans hd hcov) hleft) (lt_irrefl _)
         have hleaves : r.node.leaves.Perm (p0 :: rest) := by
           rw [hnil] at hperm
           simp only [pts_nil, append_nil, hpts] at hperm
@@ -81,9 +99,8 @@ theorem batchCreate_good (hself : ∀ x, δ x x = 0) (hnn : ∀ x y, 0 ≤ δ x 
     sense of `CoverTree.wfTree` — the hypothesis of `cover_query_exact` -/
 theorem batchCreate_wf' (hself : ∀ x, δ x x = 0) (hnn : ∀ x y, 0 ≤ δ x y) (hpos : ∀ s, 0 ≤ distOfScale s)
     {fuel N : Nat} {points : List Nat} (hpts : points.Perm (List.range N)) {t : CNode K} {ls : Nat}
-    (htop : topCovered δ getScale distOfScale points = true)
     (h : batchCreate δ getScale distOfScale fuel points = some (t, ls)) : wfTree δ N t = true := by
-  obtain ⟨hwf, hlv, _⟩ := batchCreate_good hself hnn hpos htop h
+  obtain ⟨hwf, hlv, _⟩ := batchCreate_good hself hnn hpos h
   have hp := hlv.trans hpts
   unfold wfTree
   simp only [Bool.and_eq_true, decide_eq_true_eq, beq_iff_eq, all_eq_true]
